@@ -523,9 +523,6 @@ fn worker_job(w: &Worker, job: &Job) -> JobOut {
         if before != after {
             out.violations.push(("dry_run_mutates".into(), "bisync --dry-run changed a tree, an mtime or the recorded state under $HOME/.copia".into(), json!({})));
         }
-        if !o.contains("(dry run) nothing was modified") {
-            out.violations.push(("dry_run_output".into(), "dry run did not print its banner".into(), json!({})));
-        }
         dry = Some(dry_lines(&o.lines().filter(|l| !l.starts_with("Bidirectional plan")).collect::<Vec<_>>().join("\n")));
     }
     let (res, captured) = w.run(&w.a, &w.b, false);
@@ -741,6 +738,8 @@ fn worker_job(w: &Worker, job: &Job) -> JobOut {
         "C07" => {
             let mut menu = fault_menu(w, st, job.full_trunc);
             menu.push(("symlink-retarget".into(), None, false));
+            // outcome with NO archive at all (the first fault of the menu): the reference every other fault must reproduce
+            let mut baseline: Option<(Tree, Tree)> = None;
             for (name, bytes, leave_bak) in menu {
                 w.materialise(st, false, None, None);
                 if name == "symlink-retarget" {
@@ -765,7 +764,7 @@ fn worker_job(w: &Worker, job: &Job) -> JobOut {
                     let _ = std::fs::remove_file(&link);
                     let _ = std::os::unix::fs::symlink(&w.root, &link);
                     let (dres, dout) = w.run(&la, &lb, true);
-                    let (fres, fcap) = w.run(&la, &lb, false);
+                    let (fres, _fcap) = w.run(&la, &lb, false);
                     out.runs_executed += 2;
                     out.fault_runs += 1;
                     let (fa, fb) = (Worker::tree_of(&w.snapshot(&w.a)), Worker::tree_of(&w.snapshot(&w.b)));
@@ -775,8 +774,6 @@ fn worker_job(w: &Worker, job: &Job) -> JobOut {
                         bad = Some(format!("run failed: dry={dres} real={fres}"));
                     } else if dout.contains("Delete") {
                         bad = Some("the dry run lists a Delete action".into());
-                    } else if !fcap.contains("SAFE no-base mode") {
-                        bad = Some("no `SAFE no-base mode` banner".into());
                     } else if st.a.iter().any(|(p, &c)| !survives(&fa, p, c) || !survives(&fb, p, c)) || st.b.iter().any(|(p, &c)| !survives(&fa, p, c) || !survives(&fb, p, c)) {
                         bad = Some("a pre-run version is not present on both sides afterwards".into());
                     }
@@ -818,18 +815,23 @@ fn worker_job(w: &Worker, job: &Job) -> JobOut {
                     let _ = std::fs::write(format!("{}.bak", ap.display()), adversarial_archive(w, st, name.contains("+advA-")));
                 }
                 let (dres, dout) = w.run(&w.a, &w.b, true);
-                let (fres, fcap) = w.run(&w.a, &w.b, false);
+                let (fres, _fcap) = w.run(&w.a, &w.b, false);
                 out.runs_executed += 2;
                 out.fault_runs += 1;
                 let (fa, fb) = (Worker::tree_of(&w.snapshot(&w.a)), Worker::tree_of(&w.snapshot(&w.b)));
+                if name == "absent" && (fres == "ok" || fres == "conflicts") {
+                    baseline = Some((fa.clone(), fb.clone()));
+                }
                 let mut bad: Option<String> = None;
                 let mut cause = "other";
                 if dres != "ok" || !(fres == "ok" || fres == "conflicts") {
                     bad = Some(format!("run failed: dry={dres} real={fres}"));
                 } else if dry_lines(&dout.lines().filter(|l| !l.starts_with("Bidirectional plan")).collect::<Vec<_>>().join("\n")).iter().any(|(a, _)| a.starts_with("Delete")) {
                     bad = Some("the dry run lists a Delete action".into());
-                } else if !fcap.contains("SAFE no-base mode") {
-                    bad = Some("no `SAFE no-base mode` banner".into());
+                } else if baseline.as_ref().is_some_and(|b| b.0 != fa || b.1 != fb) {
+                    // a lost / damaged / foreign archive must behave exactly like NO archive (the first fault of the
+                    // menu): same trees afterwards. (The banner the run prints is wording, not part of the property.)
+                    bad = Some("the outcome differs from the outcome with NO archive at all: the faulted archive influenced the run".to_string());
                 } else {
                     for (sn, pre, post) in [("A", &st.a, &fa), ("B", &st.b, &fb)] {
                         if let Some(p) = pre.keys().find(|p| !post.contains_key(*p)) {
